@@ -37,6 +37,8 @@ class Ctx:
         self.char_fixed: Dict[int, str] = {}
         self.char_excl: Dict[int, set] = {}
         self.log: List[Any] = []  # global effect log (extcalls, mutations outside generators)
+        self.atom_info: Dict[Any, Any] = {}  # world key -> structured description of the atom
+        self.len_origin: Dict[int, Any] = {}  # length variable -> the value it is the length of
 
     def new_id(self) -> int:
         self._next += 1
